@@ -144,7 +144,11 @@ def run(ctx):
                    "numbers around 2^31, 2^32, 2^63, 2^64 and of 20-40 digits, stray/nested brackets, words of "
                    "1021..1025/4094..4097/8000 bytes, blank/sign shapes inside brackets, printf conversions (%s %n %d ...) inside "
                    "brackets (the diagnostic must quote them verbatim), 10239/10240/10241 ranges in one "
-                   "bracket; on the pdsh binary also `-q` (ranged listing, 1 KiB buffer) with numbers 500..4100 characters wide "
+                   "bracket; STATE LEFT OVER (errno, the previous bracket's range table, the first element's width): "
+                   "every pinned well-formed and malformed text (trailing / leading / double comma, empty bracket, "
+                   "open range, reversed, too many) as the word after each poisoning word in one hostlist_create and "
+                   "in the call AFTER hostlist_create(poison) incl. failed calls (harness op sprobe), and as -w words "
+                   "of the pdsh binary; on the pdsh binary also `-q` (ranged listing, 1 KiB buffer) with numbers 500..4100 characters wide "
                    "(safety only); (thorough) all strings over {a,0,1,9,[,],-,,} up to length 7; non-trivial = contains a "
                    "bracket or a digit run >= 10; distinct = distinct text"}
     dist = {}
